@@ -280,7 +280,17 @@ def guarded_layout(vals, layout):
     for n in inner:
         total *= n
     pad = total + 16
-    buf = np.zeros(total + 2 * pad, dtype=vals.dtype)
+    if layout == 'unaligned' and vals.dtype.itemsize > 1:
+        # contiguous but starting at an odd address (a view into a byte
+        # buffer): flags.aligned is False
+        raw = np.zeros((total + 2 * pad) * vals.dtype.itemsize + 1,
+                       dtype=np.uint8)
+        off = 1 if raw.ctypes.data % 2 == 0 else 2
+        off = off if (raw.ctypes.data + off) % vals.dtype.itemsize else off + 1
+        buf = raw[off:off + (total + 2 * pad) * vals.dtype.itemsize
+                  - vals.dtype.itemsize].view(vals.dtype)
+    else:
+        buf = np.zeros(total + 2 * pad, dtype=vals.dtype)
     mid = buf[pad:pad + total]
     if layout == 'F':
         arr = mid.reshape(shape[::-1]).T
